@@ -1,4 +1,5 @@
 import Redproxy.Model.Fragment
+import Driver.Codec
 namespace Redproxy.Driver.C11
 open Redproxy Redproxy.Fragment
 
@@ -39,6 +40,7 @@ def step (s : S) (line : String) : S × String :=
     | some now => ({ s with st := timer s.st now }, "ok")
     | none => (s, "bad-op")
   | ["S", _] => (s, "ok")
+  | ["RFR", _] => (s, Redproxy.Driver.Codec.step line)
   | _ => (s, "bad-op")
 
 partial def loop (h : IO.FS.Stream) (out : IO.FS.Stream) (s : S) : IO Unit := do
